@@ -113,6 +113,8 @@ def build_world(s, pre):
         r.gn_data_request(req("guc_pending", b"pre0"))
     if pre.get("cbf_buffered"):
         r.gn_data_indicate(frames["gbc_buf"])
+    if pre.get("sn_near_wrap") and not pre.get("ls_pending"):
+        r.sequence_number = 2 ** 16 - 3        # a long history of originated packets: the next numbers straddle the wrap
     return {"clock": clock, "router": r, "ll": ll, "frames": frames, "req": req, "timers": timers, "pv0": pv0}
 
 
@@ -259,7 +261,7 @@ def _run_schedule(case):
 def scenario_s():
     ops = st.sampled_from(OPS)
     return st.fixed_dictionaries({
-        "pre": st.fixed_dictionaries({"ls_pending": st.booleans(), "cbf_buffered": st.booleans()}),
+        "pre": st.fixed_dictionaries({"ls_pending": st.booleans(), "cbf_buffered": st.booleans(), "sn_near_wrap": st.sampled_from([False, False, True])}),
         "actors": st.lists(st.lists(ops, min_size=1, max_size=3), min_size=2, max_size=4),
     })
 
@@ -305,6 +307,7 @@ FIXED = [
     {"pre": {"ls_pending": False, "cbf_buffered": False}, "actors": [["gbc"], ["gbc"], ["gbc"], ["gbc"]]},
     {"pre": {"ls_pending": True, "cbf_buffered": False}, "actors": [["timer", "timer", "timer"], ["guc_pending"]]},
     {"pre": {"ls_pending": False, "cbf_buffered": False}, "actors": [["guc_pending"], ["guc_pending", "rx_lsrep"]]},
+    {"pre": {"ls_pending": False, "cbf_buffered": False, "sn_near_wrap": True}, "actors": [["gbc", "gbc"], ["gbc"]]},
 ]
 
 
@@ -312,22 +315,26 @@ def job_systematic(scenario_i, shard, nshards):
     """Every schedule with exactly one preemption (position x target actor) for one fixed scenario."""
     part = Partial()
     sc = FIXED[scenario_i]
-    base = run_schedule(dict(sc, schedule=[]))
-    part.record(dict(sc, schedule=[]), base, kind="schedule")
-    n_points = getattr(base, "points", 0)
     n_act = len(sc["actors"])
     i = 0
-    for p in range(n_points):
-        for k in range(1, n_act):
-            if i % nshards == shard:
-                case = dict(sc, schedule=[0] * p + [k])
-                out = run_schedule(case)
-                part.record({"scenario": scenario_i, "preempt_at": p, "to": k}, out, kind="systematic", hash_case=False, sample_cap=1)
-                for v in out.violations:
-                    v["case"] = case
-                    v["kind"] = "schedule"
-            i += 1
-    part.subcount("systematic-single-preemption:scenario%d" % scenario_i, points=n_points if shard == 0 else 0, schedules=i // nshards, exhaustive_single_preemption=True)
+    tot_points = 0
+    # decision 0 chooses the actor that starts; then exactly one preemption at point p >= 1 (every actor gets to be the preempted one)
+    for start in range(n_act):
+        base = run_schedule(dict(sc, schedule=[start]))
+        part.record(dict(sc, schedule=[start]), base, kind="schedule")
+        n_points = getattr(base, "points", 0)
+        tot_points += n_points
+        for p in range(1, n_points):
+            for k in range(1, n_act):
+                if i % nshards == shard:
+                    case = dict(sc, schedule=[start] + [0] * (p - 1) + [k])
+                    out = run_schedule(case)
+                    part.record({"scenario": scenario_i, "start": start, "preempt_at": p, "to": k}, out, kind="systematic", hash_case=False, sample_cap=1)
+                    for v in out.violations:
+                        v["case"] = case
+                        v["kind"] = "schedule"
+                i += 1
+    part.subcount("systematic-single-preemption:scenario%d" % scenario_i, points=tot_points if shard == 0 else 0, schedules=i // nshards, exhaustive_single_preemption=True)
     return part
 
 
@@ -336,7 +343,7 @@ def jobs(tier, seed):
     if tier == "quick":
         for s in range(10):
             js.append({"fn": "vf.props.c15:job_random", "args": {"n": 220, "seed": seed * 1000 + s}})
-        for sc in (0, 1, 2, 12, 13):
+        for sc in (0, 1, 2, 12, 13, 14):
             for sh in range(2):
                 js.append({"fn": "vf.props.c15:job_systematic", "args": {"scenario_i": sc, "shard": sh, "nshards": 2}})
     else:
